@@ -160,9 +160,13 @@ class Interp:
             v, i = self.val(t[1], env), self.val(t[2], env)
             if isinstance(v, tuple) and v and v[0] not in ("attr", "caught", "result", "tok", "pair", "fluent", "stage", "inst", "exc", "joined", "index") and isinstance(i, int):
                 return v[i] if -len(v) <= i < len(v) else ("IndexError",)
-            if isinstance(v, frozenset):
-                raise Cannot("positional access to an unordered collection")
-            return ("index", self.freeze(v), i)
+            return ("index", self.freeze(v), i)  # positional access to an unordered collection: uninterpreted
+        if tag == "slice":
+            v = self.val(t[1], env) if t[1][0] != "bag" else self.bag(t[1], env, multiset=False)
+            lo, hi, step = (self.val(x, env) for x in t[2:5])
+            if lo in (None, 0) and hi is None and step in (None, 1):
+                return v
+            return ("slice", self.freeze(v), lo, hi, step)  # an order-dependent selection: uninterpreted
         if tag == "len":
             v = t[1]
             if v[0] == "bag":
@@ -180,7 +184,8 @@ class Interp:
 
     @staticmethod
     def scope(env) -> tuple:
-        return tuple(sorted((repr(k), repr(v)) for k, v in env.items()))
+        # only the bound *values* (variable identities differ between the two sides of a comparison)
+        return tuple(sorted(repr(v) for v in env.values()))
 
     @staticmethod
     def as_str(v) -> str:
@@ -209,7 +214,7 @@ class Interp:
             return sorted(v, key=repr)
         if isinstance(v, Counter):
             return sorted(v.elements(), key=repr)
-        if isinstance(v, tuple) and v and v[0] in ("stage", "valof", "attr", "index", "keys", "tok"):
+        if isinstance(v, tuple) and v and v[0] in ("stage", "valof", "attr", "index", "keys", "tok", "slice"):
             # uninterpreted iterable: two distinct elements that depend on it
             return [("elt", v, 0), ("elt", v, 1)]
         if isinstance(v, tuple) and not (v and isinstance(v[0], str) and v[0] in ("pair", "fluent", "inst", "exc", "caught", "result", "joined", "KeyError")):
@@ -288,7 +293,9 @@ class Interp:
             vals = [bool(x) for x in self.iterate(self.val(c[1], env))]
             return any(vals) if tag == "any" else all(vals)
         if tag == "isinstance":
-            raise Cannot("isinstance")
+            return self.oracle("isinstance", self.freeze(self.val(c[1], env)), repr(c[2]))
+        if tag == "cut-short":
+            return self.oracle("cut-short", self.scope(env))  # a loop left by `break`: some elements are not processed
         raise Cannot(f"condition `{tag}` cannot be interpreted")
 
 
@@ -384,7 +391,7 @@ def pretty(v) -> str:
         return repr(v[1]) + ".join(" + ", ".join(x if not x.startswith("<('index'") else "<message>" for x in v[2]) + ")"
     if isinstance(v, tuple) and len(v) == 3 and v[0] == "index" and isinstance(v[1], tuple) and v[1][:1] == ("attr",) and isinstance(v[1][1], tuple) and v[1][1][:1] == ("caught",):
         scope = v[1][1][3]
-        return "<message of " + (", ".join(val.strip("'") for _k, val in scope) or "the failing rule") + ">"
+        return "<message of " + (", ".join(val.strip("'") for val in scope) or "the failing rule") + ">"
     if isinstance(v, tuple) and v and v[0] == "elt":
         return f"element#{v[2]}"
     if isinstance(v, tuple):
